@@ -261,6 +261,8 @@ type vpKV struct {
 	hangLat   time.Duration // an unanswered request fails after this long
 	hangIsTimeout bool // an unanswered request fails after the client's 5s request time-out instead of hanging for ever
 	afterApply func(op string)
+	createRespLat time.Duration // fixed response latency of Create (the write is applied at once, its answer is late)
+	hangGets  bool // every read hangs for ever (the caller's own time-out is all that ends it)
 	beforeIssue func(op string) // adversarial environment: acts right before this operation is issued
 	latMin    time.Duration // lower bound of the request latency (latMin == lat: concrete latency)
 	faultForce bool // inject faults[0] without asking the explorer
@@ -282,6 +284,10 @@ func (k *vpKV) begin(op string) int {
 	}
 	if k.beforeIssue != nil {
 		k.beforeIssue(op)
+	}
+	if op == "get" && k.hangGets {
+		vpEvent("issue", op, k.name)
+		vpBlockForever() // reads are never answered
 	}
 	k.curStart = vpNow()
 	owner := ""
@@ -346,7 +352,9 @@ func (k *vpKV) end(op string, f int) int {
 	if k.ackYield {
 		vpYield(op + ".ack") // scheduling point between application and response (stop-point harnesses)
 	}
-	if op == "get" && k.getRespSeq != nil {
+	if op == "create" && k.createRespLat > 0 {
+		vpDelay("create.resp", k.createRespLat, k.createRespLat) // the answer to a Create travels this long
+	} else if op == "get" && k.getRespSeq != nil {
 		d := time.Duration(0)
 		if k.getRespN < len(k.getRespSeq) {
 			d = k.getRespSeq[k.getRespN]
@@ -562,6 +570,7 @@ type vpHealth struct {
 	maxCalls int
 	forceHealthy bool // from now on every verdict is "healthy" (no explorer choice)
 	forceUnhealthy bool // from now on every verdict is "unhealthy"
+	noTwoUnhealthy bool // an unhealthy verdict is always followed by a healthy one (no explorer choice there)
 	maySlow  bool // the checker may ignore its context and answer after 150 ms (explorer's choice per call)
 	slow     []bool
 }
@@ -571,9 +580,17 @@ func (h *vpHealth) Check(ctx context.Context) bool {
 	dl, has := ctx.Deadline()
 	ok := has && dl.Sub(time.Now()) <= 100*time.Millisecond
 	vpAssert("C12.ctx-100ms", ok)
+	if h.maxCalls > 0 && h.calls > h.maxCalls {
+		// beyond the scripted prefix: healthy at once (bounds the exploration when ticks are frequent)
+		h.verdicts = append(h.verdicts, true)
+		vpEvent("health", h.calls, true)
+		return true
+	}
 	v := true
 	if h.forceUnhealthy {
 		v = false
+	} else if h.noTwoUnhealthy && len(h.verdicts) > 0 && !h.verdicts[len(h.verdicts)-1] {
+		v = true
 	} else if !h.forceHealthy {
 		v = vpChoose("healthy", 2) == 1
 	}
